@@ -32,8 +32,8 @@ def configs_for(prop, tier):
         out.append(cfg('pcm_N1_two_rounds', n=1, sizer='long_only', rounds=2, twins=['order_emitted'],
                        bound='1 asset, two successive rebalances with a symbolic price move in between, real long-only sizer'))
         if tier == 'thorough':
-            out.append(cfg('pcm_N3_any_target', n=3, weight=5000, twins=tw, validate_every=10,
-                           bound='assets A,B,C; as pcm_N2_any_target'))
+            out.append(cfg('pcm_N3_any_target', n=3, weight=5000, twins=['order_emitted'], validate_every=10, fixed=dict(held={'EQ:B': False, 'EQ:C': False}, inuni={'EQ:A': True}),
+                           bound='assets A,B,C; as pcm_N2_any_target with B and C not held and A in the universe (the fully symbolic 3-asset space exceeds 50 000 paths)'))
             out.append(cfg('pcm_N2_two_rounds_any_target', n=2, rounds=2, weight=3000, twins=['order_emitted'], validate_every=10,
                            bound='2 assets, two successive rebalances with symbolic targets and price moves'))
             for k, wl in enumerate([[0.6, 0.4], [1.0, 0.0], [0.5, 0.5]]):
@@ -161,7 +161,8 @@ class Rebalance(Harness):
         br.subscribe_funds_to_account(i['cash'])
         br.create_portfolio(PID)
         br.subscribe_funds_to_portfolio(PID, i['cash'])
-        held = {a: bool(i['held'][a]) for a in A}
+        fx = self.cfg.get('fixed') or {}
+        held = {a: (fx.get('held', {}).get(a) if a in fx.get('held', {}) else bool(i['held'][a])) for a in A}
         for a in A:
             if held[a]:
                 br.submit_order(PID, Order(t0, a, i['q'][a]))
@@ -173,7 +174,7 @@ class Rebalance(Harness):
             inuni = weighted = None
         else:
             listed = None
-            inuni = {a: bool(i['inuni'][a]) for a in A}
+            inuni = {a: (fx.get('inuni', {}).get(a) if a in fx.get('inuni', {}) else bool(i['inuni'][a])) for a in A}
             weighted = {a: bool(i['weighted'][a]) for a in A}
             uni = StaticUniverse([a for a in A if inuni[a]])
             alpha = FixedSignalsAlphaModel({a: i['w'][a] for a in A if weighted[a]})
